@@ -30,9 +30,9 @@ Lemma eventfd_KT : forall t k b, t < next_fd k ->
   KT t k (fst (k_eventfd k b)) /\ (forall fd, snd (k_eventfd k b) = inl fd -> fd = next_fd k).
 Proof.
   intros t k b L. unfold k_eventfd. destruct (emfile _); [split; [apply KT_refl|discriminate]|].
-  destruct (_ || _); [split; [apply KT_refl|discriminate]|].
+  destruct (_ && _); [split; [apply KT_refl|discriminate]|].
   pose proof (KT_alloc t k K_EVENTFD L) as K. unfold k_alloc in *. cbn [fst snd] in *.
-  split; [exact K|]. intros fd E. inversion E. reflexivity.
+  split; [eapply KT_trans; [exact K|apply KT_fields; try reflexivity; cbn; lia]|]. intros fd E. inversion E. reflexivity.
 Qed.
 
 Lemma grab_KT : forall t k u, t < next_fd k ->
@@ -134,8 +134,8 @@ Proof.
   assert (R1 : rw_rfd s1 j = rw_rfd s j) by (rewrite (kf_rf _ _ _ Q); reflexivity).
   set (s2 := do_close s1 (rw_rfd s1 j)).
   assert (A2 : KF t s1 s2) by (apply do_close_KF; rewrite R1; exact N2).
-  assert (A3 : KF t s (if efd_raw s2 =? 0 then do_close s2 (rw_wfd s2 j) else s2)).
-  { eapply KF_trans; [exact Q|]. eapply KF_trans; [exact A2|]. destruct (efd_raw s2 =? 0); [|apply KF_refl].
+  assert (A3 : KF t s (if raw_is_pipe s2 j then do_close s2 (rw_wfd s2 j) else s2)).
+  { eapply KF_trans; [exact Q|]. eapply KF_trans; [exact A2|]. destruct (raw_is_pipe s2 j); [|apply KF_refl].
     apply do_close_KF. rewrite (kf_wf _ _ _ A2), (kf_wf _ _ _ Q). exact N3. }
   eapply TF_trans; [apply KF_TF; exact A3|apply TF_plain; reflexivity].
 Qed.
@@ -144,7 +144,7 @@ Lemma raw_post_TF : forall t s j, TF t s (raw_post s j).
 Proof.
   intros t s j. unfold raw_post.
   match goal with |- context [let '(k1, _) := ?X in _] => assert (K : KT t (kern s) (fst X)); [|destruct X as [k1 x]] end.
-  { destruct (efd_raw _ =? 0); apply KT_write. }
+  { destruct (raw_is_pipe _ _); apply KT_write. }
   cbn [fst] in K. apply TF_kern. exact K.
 Qed.
 
